@@ -188,7 +188,7 @@ class ArrayFeatureExtractor(Op):
     inputs = ["X", "Y"]
     outputs = ["Z"]
     in_elems = [["f32", "i64", "str"], ["i64"]]
-    max_rank = [3, 2]
+    max_rank = [3, 3]
 
     def ctor(self):
         return _ml().array_feature_extractor
@@ -447,8 +447,8 @@ class OneHot(Op):
 
     def feed(self, rng, vals):
         idx = rand_array(rng, vals[0])
-        depth = np.array(rng.choice([1, 2, 4]), dtype=np.int64).reshape(vals[1]["s"])
-        values = np.array([0.0, 1.0], dtype=np.float32)
+        depth = np.full(vals[1]["s"], rng.choice([1, 2, 4]), dtype=np.int64)
+        values = rand_array(rng, vals[2]) if vals[2]["s"] != [2] else np.array([0.0, 1.0], dtype=np.float32)
         return [idx, depth, values]
 
 
